@@ -104,13 +104,18 @@ def drop_impls(s, file, log):
     return s
 
 
+KEEP_PRIVATE_FIELDS = ('AggregatedGensIter',)
+
+
 def r1_visibility(s, file, log):
     s = _sub(s, r'pub\((super|crate)\)', 'pub', 'R1:pub', file, log)
     s = _sub(s, r'(?m)^struct\b', 'pub struct', 'R1:struct', file, log)
     # private struct fields -> pub
     m = rp.mask(s)
     out = s
-    for mm in reversed(list(re.finditer(r'\bstruct\s+\w+[^;{(]*\{', m))):
+    for mm in reversed(list(re.finditer(r'\bstruct\s+(\w+)[^;{(]*\{', m))):
+        if mm.group(1) in KEEP_PRIVATE_FIELDS:
+            continue   # carries a #[verifier::type_invariant] in the contracts: Verus requires private fields there
         o = mm.end() - 1
         c = rp.match_close(m, o)
         body = out[o + 1:c]
